@@ -778,26 +778,52 @@ class AdvancedTag(object):
         if beforeChild is None:
             return self.appendBlock(child)
 
-        # If #child is an AdvancedTag, we need to add it to both blocks and children.
-        isChildTag = isTagNode(child)
-
-        myBlocks = self.blocks
-        myChildren = self.children
-
         # Find the index #beforeChild falls under current element
         try:
-            blocksIdx =  myBlocks.index(beforeChild)
-            if isChildTag:
-                childrenIdx = myChildren.index(beforeChild)
+            blocksIdx = self.blocks.index(beforeChild)
         except ValueError:
             # #beforeChild is not a child of this element. Raise error.
             raise ValueError('Provided "beforeChild" is not a child of element, cannot insert.')
 
-        # Add to blocks in the right spot
-        self.blocks = myBlocks[:blocksIdx] + [child] + myBlocks[blocksIdx:]
-        # Add to child in the right spot
-        if isChildTag:
+        return self._insertBlockAt(child, blocksIdx)
+
+
+    def _insertBlockAt(self, child, blocksIdx):
+        '''
+            _insertBlockAt - INTERNAL. Insert a block (text or tag) at index #blocksIdx of this element's blocks,
+
+                keeping children, text, parentNode, ownerDocument and isSelfClosing consistent ( as appendBlock does )
+
+                @param child <AdvancedTag/str> - Child block to insert
+
+                @param blocksIdx <int> - Index within self.blocks at which #child will be found after the insert
+
+            @return - The added child
+        '''
+        myBlocks = self.blocks
+
+        if isTagNode(child):
+            myChildren = self.children
+
+            # The position within "children" is the number of tags which precede the insert point
+            childrenIdx = len( [ block for block in myBlocks[:blocksIdx] if isTagNode(block) ] )
+
+            child.parentNode = self
+
+            ownerDocument = self.ownerDocument
+
+            child.ownerDocument = ownerDocument
+            for subChild in child.getAllChildNodes():
+                subChild.ownerDocument = ownerDocument
+
             self.children = myChildren[:childrenIdx] + [child] + myChildren[childrenIdx:]
+
+        self.blocks = myBlocks[:blocksIdx] + [child] + myBlocks[blocksIdx:]
+
+        self.isSelfClosing = False
+
+        if not isTagNode(child):
+            self.text = ''.join( [ thisBlock for thisBlock in self.blocks if not isTagNode(thisBlock) ] )
 
         return child
 
@@ -817,25 +843,13 @@ class AdvancedTag(object):
         if afterChild is None:
             return self.appendBlock(child)
 
-        isChildTag = isTagNode(child)
-
-        myBlocks = self.blocks
-        myChildren = self.children
-
-        # Determine where we need to insert this both in "blocks" and, if a tag, "children"
+        # Determine where we need to insert this
         try:
-            blocksIdx =  myBlocks.index(afterChild)
-            if isChildTag:
-                childrenIdx = myChildren.index(afterChild)
+            blocksIdx = self.blocks.index(afterChild)
         except ValueError:
             raise ValueError('Provided "afterChild" is not a child of element, cannot insert.')
 
-        # Append child to requested spot
-        self.blocks = myBlocks[:blocksIdx+1] + [child] + myBlocks[blocksIdx+1:]
-        if isChildTag:
-            self.children = myChildren[:childrenIdx+1] + [child] + myChildren[childrenIdx+1:]
-
-        return child
+        return self._insertBlockAt(child, blocksIdx + 1)
 
 
     # Maybe we want to do a more full implementation of the Node stuff.... but I don't think anyone really
